@@ -8,6 +8,7 @@
 //!   with_precision <sig> <exp> <p0> <p>
 //!   with_base <newbase> <sig> <exp> <p0> ; with_base_prec <newbase> <sig> <exp> <p0> <p>
 //!   to_decimal|to_binary <sig> <exp> <p0>
+//!   wb_prec <newbase> <p0>                             the f32 bounds with_base divides + the precision it chooses
 //!   from_f32|from_f64|from_f32_repr|from_f64_repr <bits>
 use core::fmt;
 use core::str::FromStr;
@@ -116,6 +117,20 @@ macro_rules! dispatch_src {
 }
 
 fn conv2<R: dashu_float::round::Round, const B: Word, const NB: Word>(op: &str, a: &[&str]) -> String {
+    if op == "wb_prec" {
+        // the two f32 bounds FBig::with_base divides (public API: EstimatedLog2), then the precision it chose:
+        // the context of 1 (exact in every base) after with_base
+        use dashu_base::EstimatedLog2;
+        let p0 = usz(a[3]);
+        let lb = dashu_int::UBig::from(B as u64).pow(p0).log2_bounds().0;
+        let ub = (NB as u64).log2_bounds().1;
+        let one = FBig::<R, B>::from_repr(repr_of::<B>("1", "0"), Context::<R>::new(p0));
+        let r = std::panic::catch_unwind(std::panic::AssertUnwindSafe(|| one.with_base::<NB>()));
+        return match r {
+            Ok(v) => format!("ok {:x} {:x} {}", lb.to_bits(), ub.to_bits(), hrounded(&v)),
+            Err(_) => format!("ok {:x} {:x} panic", lb.to_bits(), ub.to_bits()),
+        };
+    }
     let x = FBig::<R, B>::from_repr(repr_of::<B>(a[3], a[4]), Context::<R>::new(usz(a[5])));
     if op == "with_base" {
         format!("ok {}", hrounded(&x.with_base::<NB>()))
@@ -184,7 +199,7 @@ fn run(op: &str, a: &[&str]) -> String {
                 }
             });
         }
-        "with_base" | "with_base_prec" | "to_decimal" | "to_binary" => {
+        "with_base" | "with_base_prec" | "to_decimal" | "to_binary" | "wb_prec" => {
             return match a[1] {
                 "Zero" => conv::<mode::Zero>(op, a),
                 "Away" => conv::<mode::Away>(op, a),
